@@ -79,6 +79,11 @@ func init() {
 		cfg.UserAgent = "verif"
 		return func(in map[string]any) string {
 			switch str(in, "op") {
+			case "cfg":
+				cfg.DisableHTMLTag = strList(in, "disableHTMLTag")
+				cfg.CaptureAlternatePages = boolean(in, "captureAlternatePages", false)
+				cfg.MaxHops = num(in, "maxHops", 5)
+				return "ok"
 			case "ext":
 				return fmt.Sprint(extractor.VerifHasFileExtension(str(in, "s")))
 			case "jsonoracle":
